@@ -35,7 +35,8 @@ type Rec struct {
 	Err   error
 	Step  int
 	At    time.Duration
-	Batch int // commit id for writes applied through a batch (0 = direct)
+	Batch int    // commit id for writes applied through a batch (0 = direct)
+	Tag   string // sim.TagOf(ctx) of the calling operation ("" if untagged)
 	// AfterClose: the operation arrived after Close returned.
 	AfterClose bool
 }
@@ -147,6 +148,11 @@ func (d *DS) gate(ctx context.Context, op, key string, val []byte, nops int) (pa
 }
 
 func (d *DS) rec(r *Rec) *Rec {
+	return d.recCtx(nil, r)
+}
+
+func (d *DS) recCtx(ctx context.Context, r *Rec) *Rec {
+	r.Tag = sim.TagOf(ctx)
 	r.N = len(d.log)
 	r.Step = d.S.Steps
 	r.At = d.S.Now()
@@ -172,14 +178,14 @@ func (d *DS) Get(ctx context.Context, key ds.Key) ([]byte, error) {
 	k := key.String()
 	if _, err := d.gate(ctx, "get", k, nil, 0); err != nil {
 		d.mu.Lock()
-		d.rec(&Rec{Op: "get", Key: k, Err: err})
+		d.recCtx(ctx, &Rec{Op: "get", Key: k, Err: err})
 		d.mu.Unlock()
 		return nil, err
 	}
 	d.mu.Lock()
 	defer d.mu.Unlock()
 	v, ok := d.data[k]
-	r := d.rec(&Rec{Op: "get", Key: k, Val: clone(v), Found: ok})
+	r := d.recCtx(ctx, &Rec{Op: "get", Key: k, Val: clone(v), Found: ok})
 	if !ok {
 		r.Err = ds.ErrNotFound
 	}
@@ -194,14 +200,14 @@ func (d *DS) Has(ctx context.Context, key ds.Key) (bool, error) {
 	k := key.String()
 	if _, err := d.gate(ctx, "has", k, nil, 0); err != nil {
 		d.mu.Lock()
-		d.rec(&Rec{Op: "has", Key: k, Err: err})
+		d.recCtx(ctx, &Rec{Op: "has", Key: k, Err: err})
 		d.mu.Unlock()
 		return false, err
 	}
 	d.mu.Lock()
 	defer d.mu.Unlock()
 	_, ok := d.data[k]
-	d.applyLocked(d.rec(&Rec{Op: "has", Key: k, Found: ok}))
+	d.applyLocked(d.recCtx(ctx, &Rec{Op: "has", Key: k, Found: ok}))
 	return ok, nil
 }
 
@@ -213,7 +219,7 @@ func (d *DS) GetSize(ctx context.Context, key ds.Key) (int, error) {
 	d.mu.Lock()
 	defer d.mu.Unlock()
 	v, ok := d.data[k]
-	d.rec(&Rec{Op: "getsize", Key: k, Found: ok})
+	d.recCtx(ctx, &Rec{Op: "getsize", Key: k, Found: ok})
 	if !ok {
 		return -1, ds.ErrNotFound
 	}
@@ -223,7 +229,7 @@ func (d *DS) GetSize(ctx context.Context, key ds.Key) (int, error) {
 func (d *DS) Query(ctx context.Context, q dsq.Query) (dsq.Results, error) {
 	if _, err := d.gate(ctx, "query", q.Prefix, nil, 0); err != nil {
 		d.mu.Lock()
-		d.rec(&Rec{Op: "query", Key: q.Prefix, Err: err})
+		d.recCtx(ctx, &Rec{Op: "query", Key: q.Prefix, Err: err})
 		d.mu.Unlock()
 		return nil, err
 	}
@@ -242,37 +248,37 @@ func (d *DS) Query(ctx context.Context, q dsq.Query) (dsq.Results, error) {
 		}
 		re = append(re, e)
 	}
-	d.applyLocked(d.rec(&Rec{Op: "query", Key: q.Prefix}))
+	d.applyLocked(d.recCtx(ctx, &Rec{Op: "query", Key: q.Prefix}))
 	d.mu.Unlock()
 	r := dsq.ResultsWithEntries(q, re)
 	return dsq.NaiveQueryApply(q, r), nil
 }
 
-func (d *DS) putLocked(k string, v []byte, batch, group int) {
+func (d *DS) putLocked(ctx context.Context, k string, v []byte, batch, group int) {
 	prev, had := d.data[k]
 	d.data[k] = clone(v)
 	d.journal = append(d.journal, JEntry{Key: k, Val: clone(v), Batch: batch, Group: group})
-	d.applyLocked(d.rec(&Rec{Op: "put", Key: k, Val: clone(v), Prev: prev, Found: had, Batch: batch}))
+	d.applyLocked(d.recCtx(ctx, &Rec{Op: "put", Key: k, Val: clone(v), Prev: prev, Found: had, Batch: batch}))
 }
 
-func (d *DS) delLocked(k string, batch, group int) {
+func (d *DS) delLocked(ctx context.Context, k string, batch, group int) {
 	prev, had := d.data[k]
 	delete(d.data, k)
 	d.journal = append(d.journal, JEntry{Del: true, Key: k, Batch: batch, Group: group})
-	d.applyLocked(d.rec(&Rec{Op: "delete", Key: k, Prev: prev, Found: had, Batch: batch}))
+	d.applyLocked(d.recCtx(ctx, &Rec{Op: "delete", Key: k, Prev: prev, Found: had, Batch: batch}))
 }
 
 func (d *DS) Put(ctx context.Context, key ds.Key, value []byte) error {
 	k := key.String()
 	if _, err := d.gate(ctx, "put", k, value, 0); err != nil {
 		d.mu.Lock()
-		d.rec(&Rec{Op: "put", Key: k, Val: clone(value), Err: err})
+		d.recCtx(ctx, &Rec{Op: "put", Key: k, Val: clone(value), Err: err})
 		d.mu.Unlock()
 		return err
 	}
 	d.mu.Lock()
 	defer d.mu.Unlock()
-	d.putLocked(k, value, 0, 0)
+	d.putLocked(ctx, k, value, 0, 0)
 	return nil
 }
 
@@ -280,13 +286,13 @@ func (d *DS) Delete(ctx context.Context, key ds.Key) error {
 	k := key.String()
 	if _, err := d.gate(ctx, "delete", k, nil, 0); err != nil {
 		d.mu.Lock()
-		d.rec(&Rec{Op: "delete", Key: k, Err: err})
+		d.recCtx(ctx, &Rec{Op: "delete", Key: k, Err: err})
 		d.mu.Unlock()
 		return err
 	}
 	d.mu.Lock()
 	defer d.mu.Unlock()
-	d.delLocked(k, 0, 0)
+	d.delLocked(ctx, k, 0, 0)
 	return nil
 }
 
@@ -295,7 +301,7 @@ func (d *DS) Sync(ctx context.Context, prefix ds.Key) error {
 	p := prefix.String()
 	if _, err := d.gate(ctx, "sync", p, nil, 0); err != nil {
 		d.mu.Lock()
-		d.rec(&Rec{Op: "sync", Key: p, Err: err})
+		d.recCtx(ctx, &Rec{Op: "sync", Key: p, Err: err})
 		d.mu.Unlock()
 		return err
 	}
@@ -306,7 +312,7 @@ func (d *DS) Sync(ctx context.Context, prefix ds.Key) error {
 			d.journal[i].Synced = true
 		}
 	}
-	d.rec(&Rec{Op: "sync", Key: p})
+	d.recCtx(ctx, &Rec{Op: "sync", Key: p})
 	return nil
 }
 
@@ -364,7 +370,7 @@ func (b *batch) Commit(ctx context.Context) error {
 	partial, err := d.gate(ctx, "commit", first, nil, len(b.ops))
 	if err != nil {
 		d.mu.Lock()
-		d.rec(&Rec{Op: "commit", Key: first, Err: err})
+		d.recCtx(ctx, &Rec{Op: "commit", Key: first, Err: err})
 		d.mu.Unlock()
 		return err
 	}
@@ -391,12 +397,12 @@ func (b *batch) Commit(ctx context.Context) error {
 	}
 	for _, o := range b.ops[:n] {
 		if o.del {
-			d.delLocked(o.key, id, group)
+			d.delLocked(ctx, o.key, id, group)
 		} else {
-			d.putLocked(o.key, o.val, id, group)
+			d.putLocked(ctx, o.key, o.val, id, group)
 		}
 	}
-	d.rec(&Rec{Op: "commit", Key: first, Err: perr, Batch: id})
+	d.recCtx(ctx, &Rec{Op: "commit", Key: first, Err: perr, Batch: id})
 	b.ops = nil
 	return perr
 }
